@@ -529,7 +529,7 @@ def explore(run, tier, seed):
     if tier == "quick":
         pools = ["NNG"]
         extra = POOLS_QUICK[1:][seed % (len(POOLS_QUICK) - 1)]
-        plans = [(pools[0], 4, [1, 2], 3), (pools[0], 3, [1, 2], 4), (extra, 4, [1, 2], 3)]
+        plans = [(pools[0], 4, [1, 2], 3), (pools[0], 3, [1, 2], 4), (extra, 3, [1, 2], 3)]
     else:
         plans = [(p, 5, [1, 2, 3], 4) for p in ["NNG", "NRM", "GTL"]] + [("NNGR", 4, [1, 2], 4), ("NNG", 4, [1, 2], 5)]
     for pool, nT, Q, depth in plans:
